@@ -216,7 +216,9 @@ namespace MEDDLY {
             return false;
         }
         inline static bool stopOnEqualArgs() {
-            return true;
+            // x/x is 1 only where x is nonzero; elsewhere we must reach
+            // the terminals and report the error.
+            return false;
         }
         inline static void makeEqualResult(int L, unsigned in,
                 const forest* fa, node_handle a,
@@ -236,7 +238,9 @@ namespace MEDDLY {
                 const forest* fa, node_handle &a,
                 const forest* fb, node_handle b)
         {
-            return (OMEGA_ZERO == a);
+            // 0/b is 0 only where b is nonzero, so a zero numerator
+            // cannot short-circuit the check of the divisor.
+            return false;
         }
 
         inline static bool simplifiesToSecondArg(int L,
